@@ -86,6 +86,7 @@ COVERED = {
     # callbacks of the C03 hook.  Written only by the harness, never by the library; unset (empty) they change nothing.
     "src/POMDP/Algorithms/GapMin.cpp::bool": ("verif-hook", "C03 observer hook (AITOOLBOX_VERIF only): std::function<bool(const VerifSnapshot&)> observer, set by the C03 harness only"),
     "src/POMDP/Algorithms/SARSOP.cpp::void": ("verif-hook", "C03 event hook (AITOOLBOX_VERIF only, commit 9062f5a): std::function<void(const VerifEvent&)> observer, set by the C03 harness only"),
+    "include/AIToolbox/POMDP/Algorithms/Witness.hpp::void": ("verif-hook", "C02 event hook (AITOOLBOX_VERIF only, commit 8fdad9c): std::function<void(const VerifEvent&)> observer of the witness queries, set by the C02 harness only"),
     "src/POMDP/Algorithms/SARSOP.cpp::bool": ("verif-hook", "C03 observer hook (AITOOLBOX_VERIF only): std::function<bool(const VerifSnapshot&)> observer, set by the C03 harness only"),
 }
 _BG = "include/AIToolbox/POMDP/Algorithms/Utils/BeliefGenerator.hpp::"
